@@ -19,7 +19,6 @@ fi
 BIN=/verif/out/bin/check.$$
 if ! $GO build $MODFLAG -tags verif -o $BIN ./cmd/check 2>/verif/out/build.$$.log; then
   cat /verif/out/build.$$.log; rm -f /verif/out/build.$$.log
-case "$ID" in C08|C13) export GODEBUG=clobberfree=1 ;; esac
   echo "HARNESS-ERROR build failed"; exit 2
 fi
 rm -f /verif/out/build.$$.log
